@@ -1,8 +1,8 @@
 (* C18: series functions act row by row and follow their formulas.  Statements only;
-   proofs in Proofs/SeriesFacts.v.  Samples: option V, None = NaN.  *1 = L1 model built on the kernels
+   proofs in Proofs/SeriesFacts.v and Proofs/SeriesRefine.v.  Samples: option V, None = NaN.  *1 = L1 model built on the kernels
    regenerated from series.py / _seriescolumn.py; unmarked = L0 specification (Spec/Series.v). *)
 From Coq Require Import ZArith QArith List Bool.
-From DM Require Import Spec.Series Gen.KSeries Model.Series Proofs.SeriesFacts.
+From DM Require Import Spec.Series Gen.KSeries Model.Series Proofs.SeriesFacts Proofs.SeriesRefine.
 Import ListNotations.
 Local Open Scope nat_scope.
 
@@ -120,7 +120,7 @@ Theorem C18_downsample_formula : forall b (pre blk post : qrow) k,
 Proof. exact downsample_formula. Qed.
 Print Assumptions C18_downsample_formula.
 
-(* ---- concatenate (L0): joins depths row by row ---- *)
+(* ---- concatenate (L0): joins depths row by row (L1 = L0: C18_concatenate_spec below) ---- *)
 Theorem C18_concatenate_row : forall (V : Type) n (ss : list (list (list (option V)))) i, i < n ->
   nth i (concatenate n ss) [] = concat (map (fun s => nth i s []) ss).
 Proof. exact concatenate_nth. Qed.
@@ -131,6 +131,67 @@ Theorem C18_concatenate_commutes : forall (V : Type) n ps (ss : list (list (list
   concatenate (length ps) (map (take_rows ps) ss) = take_rows ps (concatenate n ss).
 Proof. exact concatenate_commutes. Qed.
 Print Assumptions C18_concatenate_commutes.
+
+(* ---- normalize_time: the loop of series.py (strip trailing NaN timestamps, searchsorted on arange, scatter) with the
+   regenerated depth kernel places sample j at index time_j, for every column of integer timestamps that increase
+   inside each row with NaN only at the end, whatever the number of rows and the depth ---- *)
+Theorem C18_normalize_time_spec : forall (V : Type) d (s : list (list (option V))) tss,
+  forallb times_ok tss = true -> wf_series d s = true -> wf_series d tss = true -> has_time tss = true ->
+  normalize_time1 d s tss = Some (normalize_time s tss).
+Proof. exact normalize_time_spec_L1. Qed.
+Print Assumptions C18_normalize_time_spec.
+
+(* ---- interpolate: np.interp over the valid samples, through _SeriesColumn._map, is the L0 formula (linear between
+   the nearest valid neighbours, flat beyond the outermost ones, an all-NaN row unchanged) up to equality of
+   rationals, for every non-empty column ---- *)
+Theorem C18_interpolate_spec : forall (s : list qrow) d,
+  s <> [] -> wf_series d s = true -> exists out, interpolate1 s = Some out /\ rows_equiv out (interpolate s).
+Proof. exact interpolate_spec_L1. Qed.
+Print Assumptions C18_interpolate_spec.
+
+Theorem C18_interpolate_row : forall y : qrow, row_equiv (interpolate_row1 y) (interpolate_row y).
+Proof. exact interpolate_row_spec. Qed.
+Print Assumptions C18_interpolate_row.
+
+(* ---- baseline: series -|/ reduce(window(baseline)) through _SeriesColumn._operate (the reduced column broadcast along
+   the depth axis) is the per-row formula, for any reduction ---- *)
+Theorem C18_baseline_spec : forall d dbl divisive red lo hi (s bl : list qrow),
+  Nat.eqb (length s) (length bl) = true -> wf_series d s = true -> wf_series dbl bl = true ->
+  baseline1 d dbl divisive red lo hi s bl = Some (baseline divisive red lo hi s bl).
+Proof. exact baseline_spec_L1. Qed.
+Print Assumptions C18_baseline_spec.
+
+Theorem C18_baseline_formula : forall divisive red lo hi (r bl : qrow) i, i < length r ->
+  nth i (baseline_row divisive red lo hi r bl) None
+  = lift2 (if divisive then Qdiv else Qminus) (nth i r None) (red (pyslice (Some lo) hi bl)).
+Proof. exact baseline_row_nth. Qed.
+Print Assumptions C18_baseline_formula.
+
+(* ---- z: (a - nanmean(a)) / nanstd(a) through _SeriesColumn._map is the L0 z-transform, for every function nanstd that
+   returns the standard deviations sdf; and the L0 z-transform of a row whose standard deviation is sd <> 0 has mean 0
+   and variance (hence standard deviation) 1 ---- *)
+Theorem C18_z_spec : forall (nanstd : qrow -> option Q) (sdf : qrow -> Q) (s : list qrow) d,
+  s <> [] -> wf_series d s = true -> (forall r, In r s -> nanstd r = Some (sdf r)) ->
+  z1 nanstd s = Some (map (fun r => z_row (sdf r) r) s).
+Proof. exact z_spec_L1. Qed.
+Print Assumptions C18_z_spec.
+
+Theorem C18_z_mean0_sd1 : forall (r : qrow) sd, is_std sd r = true ->
+  exists m v, nanmean (z_row sd r) = Some m /\ (m == 0)%Q /\ nanvar (z_row sd r) = Some v /\ (v == 1)%Q.
+Proof. exact z_mean0_sd1. Qed.
+Print Assumptions C18_z_mean0_sd1.
+
+(* ---- concatenate: the offset loop newseries[:, i:i+s.depth] = s with the regenerated offsets joins the depths row by
+   row, for any number of columns of any depths on the same rows; reduce: one value per row ---- *)
+Theorem C18_concatenate_spec : forall (V : Type) n (ss : list (nat * list (list (option V)))),
+  ss <> [] -> forallb (fun ds => Nat.eqb (length (snd ds)) n && wf_series (fst ds) (snd ds)) ss = true ->
+  concatenate1 n ss = Some (concatenate n (map snd ss)).
+Proof. exact concatenate_spec_L1. Qed.
+Print Assumptions C18_concatenate_spec.
+
+Theorem C18_reduce_spec : forall (op : qrow -> option Q) (s : list qrow), reduce1 op s = reduce op s.
+Proof. exact reduce_spec_L1. Qed.
+Print Assumptions C18_reduce_spec.
 
 (* ---- non-vacuity ---- *)
 Example C18_ex_endlock : endlock1 [[Some 1%Z; None; Some 2%Z; None; None]] = Some [[None; None; Some 1%Z; None; Some 2%Z]].
@@ -144,3 +205,28 @@ Example C18_ex_lock : lock1 2 [[Some 1%Z; Some 2%Z]; [Some 3%Z; Some 4%Z]] [0%Z;
 Proof. vm_compute. reflexivity. Qed.
 Example C18_ex_downsample : downsample1 2 [[Some 1%Q; None; Some 3%Q; Some 5%Q; Some 7%Q]] = Some [[Some (1 / 1)%Q; Some ((3 + (5 + 0)) / 2)%Q]].
 Proof. vm_compute. reflexivity. Qed.
+(* the premises of the refinement theorems are satisfiable, and the models compute *)
+Example C18_ex_normalize_time_premises :
+  let tss := [[Some 1%Z; Some 2%Z; Some 4%Z]; [Some 0%Z; Some 3%Z; None]] in
+  let s := [[Some 3%Z; Some 1%Z; Some 2%Z]; [Some 1%Z; None; Some 9%Z]] in
+  forallb times_ok tss = true /\ wf_series 3 s = true /\ wf_series 3 tss = true /\ has_time tss = true /\
+  normalize_time1 3 s tss = Some [[None; Some 3%Z; Some 1%Z; None; Some 2%Z]; [Some 1%Z; None; None; None; None]].
+Proof. vm_compute. repeat split; reflexivity. Qed.
+Example C18_ex_interpolate :
+  option_map (map (map (option_map Qred))) (interpolate1 [[None; Some 1%Q; None; None; Some 4%Q; None]; [None; None; None; None; None; None]])
+  = Some [[Some 1%Q; Some 1%Q; Some 2%Q; Some 3%Q; Some 4%Q; Some 4%Q]; [None; None; None; None; None; None]].
+Proof. vm_compute. reflexivity. Qed.
+Example C18_ex_baseline :
+  Nat.eqb 1 1 = true /\ wf_series 3 [[Some 5%Q; None; Some 7%Q]] = true /\ wf_series 2 [[Some 1%Q; Some 3%Q]] = true /\
+  option_map (map (map (option_map Qred))) (baseline1 3 2 false nanmean (-100) None [[Some 5%Q; None; Some 7%Q]] [[Some 1%Q; Some 3%Q]])
+  = Some [[Some 3%Q; None; Some 5%Q]].
+Proof. vm_compute. repeat split; reflexivity. Qed.
+Example C18_ex_z :
+  is_std 1 [Some 1%Q; None; Some 3%Q] = true /\
+  option_map (map (map (option_map Qred))) (z1 (fun _ => Some 1%Q) [[Some 1%Q; None; Some 3%Q]]) = Some [[Some (-1)%Q; None; Some 1%Q]].
+Proof. vm_compute. repeat split; reflexivity. Qed.
+Example C18_ex_concatenate :
+  let ss := [(2, [[Some 1%Z; None]; [Some 3%Z; Some 4%Z]]); (1, [[Some 5%Z]; [None]])] in
+  forallb (fun ds => Nat.eqb (length (snd ds)) 2 && wf_series (fst ds) (snd ds)) ss = true /\
+  concatenate1 2 ss = Some [[Some 1%Z; None; Some 5%Z]; [Some 3%Z; Some 4%Z; None]].
+Proof. vm_compute. split; reflexivity. Qed.
